@@ -1045,7 +1045,8 @@ class Footnote(BlockToken):
         for key, dest, title, *_ in matches:
             key = normalize_label(key)
             dest = span_token.EscapeSequence.strip(dest.strip())
-            title = span_token.EscapeSequence.strip(title)
+            # (as in any paragraph, a continuation line has lost its indentation)
+            title = span_token.EscapeSequence.strip(re.sub(r'\n[ \t]+', '\n', title))
             if key not in root.footnotes:
                 root.footnotes[key] = dest, title
 
